@@ -879,3 +879,387 @@ def run_conn_cases_in_coq(ctx, name, terms, budget=300000, timeout=900, workers=
                 return None
             bad += [idxs[i] for i in idx]
     return bad
+
+
+# ==================================================================================== shared properties (HTTP share)
+def sample_conversations(rng, n_h1=3, n_h2=3, sizes=None, split=True):
+    """Abstract conversations used by C01 / C02 / C08: list of (case, meta)."""
+    out = []
+    for i in range(n_h1):
+        k = rng.choice([2, 3])
+        ex = [gen_exchange(rng, j + 1, last=(j == k - 1), sizes=sizes or [0, 3, 100, 1000, 4097, 5000]) for j in range(k)]
+        if i == 0:
+            ex[0].update({"method": "POST", "reqFraming": "chunked", "reqBody": b64(rand_body(rng, 300)), "reqChunks": [100, 100]})
+            ex[-1].update({"respFraming": "chunked", "respBody": b64(rand_body(rng, 500)), "respChunks": [255, 17]})
+            if ex[-1]["status"] in (204, 304):
+                ex[-1]["status"] = 200
+        if i == 1:
+            ex[0].update({"method": "POST", "reqFraming": "cl", "reqBody": b64(rand_body(rng, 64))})
+            ex[-1].update({"respFraming": "cl", "respBody": b64(rand_body(rng, 128))})
+            if ex[-1]["status"] in (204, 304):
+                ex[-1]["status"] = 200
+        out.append(({"kind": "h1", "h1": ex}, {"kind": "h1", "exchanges": ex}))
+    for i in range(n_h2):
+        k = rng.choice([1, 2, 3])
+        streams = [gen_stream(rng, j, body_sizes=sizes or [0, 5, 100, 3000, 20000]) for j in range(k)]
+        mode = "prior"
+        case = build_h2_case(rng, streams, mode=mode)
+        if not split:
+            for side in ("client", "server"):
+                for op in case["h2"][side]:
+                    op.pop("split", None)
+        out.append((case, {"kind": "h2", "streams": streams}))
+    return out
+
+
+def encode_cases(ctx, cases):
+    res = run_cases(ctx, [dict(c) for c in cases], mode="encode")
+    return [res[c["id"]] for c in cases]
+
+
+def strip_item(it):
+    # stage_ns: timing; size / rep_size: length of the item's JSON, which contains CaptureSize (bytes read from
+    # the connection since the previous message: read-ahead, not part of what is reported about the traffic)
+    d = {k: v for k, v in it.items() if k not in ("stage_ns", "size", "rep_size")}
+    return json.dumps(d, sort_keys=True)
+
+
+def result_key(r):
+    """Everything the chunking property compares: outcome classes, items, residue."""
+    if "items" not in r:
+        return "BROKEN " + json.dumps(r, sort_keys=True)[:200]
+    return json.dumps([r["c"]["outcome"], r["s"]["outcome"], [strip_item(i) for i in r["items"]], r["residue"]], sort_keys=True)
+
+
+def raw(c, s, **kw):
+    d = {"kind": "raw", "c": b64(c), "s": b64(s), "bodylimit": 1}
+    d.update(kw)
+    return d
+
+
+TOKENS = [b"GET ", b"POST ", b"HEAD ", b"/", b" HTTP/1.1\r\n", b" HTTP/1.0\r\n", b"HTTP/1.1 200 OK\r\n", b"HTTP/1.1 101 Switching Protocols\r\n",
+          b"\r\n", b"\r\n\r\n", b"\n", b"Host: h\r\n", b"Content-Length: ", b"Transfer-Encoding: chunked\r\n", b"Connection: Upgrade\r\n",
+          b"Upgrade: h2c\r\n", b"Content-Type: multipart/form-data; boundary=x\r\n", b"Content-Type: application/x-www-form-urlencoded\r\n",
+          b"Content-Encoding: gzip\r\n", b"Cookie: a=b\r\n", b"0\r\n\r\n", b"5\r\nhello\r\n", b"ffffffffffffffff\r\n", b"-1", b"0", b"1", b"9", b"4294967296",
+          b"PRI * HTTP/2.0\r\n\r\nSM\r\n\r\n", b"\x00\x00\x00\x04\x00\x00\x00\x00\x00", b"\x00\x00\x04\x08\x00\x00\x00\x00\x00\x00\x00\x00\x01",
+          b"\x00\x00\x01\x01\x05\x00\x00\x00\x01\x82", b"\x00\x00\x05\x00\x01\x00\x00\x00\x01hello", b"\x00\x00\x03\x01\x05\x00\x00\x00\x03\x88\x84\x86",
+          b"\xff\xff\xff", b"\x00", b"\x80", b":", b" ", b"%", b"?a=1&a=2", b"%zz", b"--x\r\n", b"{\"query\":\"{a}\"}"]
+
+
+def random_stream(rng, n):
+    out = bytearray()
+    for _ in range(n):
+        if rng.random() < 0.85:
+            out += rng.choice(TOKENS)
+        else:
+            out += bytes(rng.getrandbits(8) for _ in range(rng.randint(1, 6)))
+    return bytes(out)
+
+
+def rand_cuts(rng, n, k=None):
+    if n < 2:
+        return []
+    k = k or rng.randint(1, 8)
+    return sorted(set(rng.randrange(1, n) for _ in range(k)))
+
+
+def _bad_outcome(r):
+    if "items" not in r:
+        return "harness-failure"
+    for side in ("c", "s"):
+        if r[side]["outcome"] in ("panic", "hang"):
+            return "%s:%s:%s" % (r[side]["outcome"], side, r[side].get("site", ""))
+    if r.get("timeout"):
+        return "timeout"
+    return None
+
+
+def c01(ctx):
+    """HTTP share of C01: prefixes, corruptions and random token-biased strings never panic or
+    hang; a cut conversation still reports what was complete."""
+    rng = ctx.rng
+    quick = ctx.tier == "quick"
+    convs = sample_conversations(rng, 3, 3, split=False)
+    for i, (c, m) in enumerate(convs):
+        c["id"] = i
+    encs = encode_cases(ctx, [c for c, _ in convs])
+    cases, info = [], []
+
+    def add(case, what):
+        case["id"] = len(cases)
+        cases.append(case)
+        info.append(what)
+    for (conv, meta), enc in zip(convs, encs):
+        cb, sb = unb64(enc["c"]), unb64(enc["s"])
+        add(raw(cb, sb), ("full", meta, None))
+        full_id = len(cases) - 1
+        for side, data, ends in (("c", cb, enc["cends"]), ("s", sb, enc["sends"])):
+            offs = set(range(len(data))) if len(data) <= (700 if quick else 100000) else set(rng.sample(range(len(data)), 250))
+            offs |= {e for e in ends if e < len(data)} | {e - 1 for e in ends if e > 0} | {0}
+            for k in sorted(offs):
+                case = raw(cb[:k], sb, ctail=rng.choice([0, 0, 1])) if side == "c" else raw(cb, sb[:k], stail=rng.choice([0, 0, 1]))
+                add(case, ("prefix", meta, (side, k, full_id, ends)))
+        # corruptions
+        for _ in range(40 if quick else 600):
+            side = rng.choice("cs")
+            data = bytearray(cb if side == "c" else sb)
+            if not data:
+                continue
+            for _ in range(rng.choice([1, 1, 1, 2, 4])):
+                off = rng.randrange(len(data))
+                r = rng.random()
+                if r < 0.6:
+                    data[off] = rng.choice([0, 0xff, 0x0d, 0x0a, 0x20, 0x3a, 0x30, 0x39, 0x2d, rng.getrandbits(8)])
+                elif r < 0.8:
+                    del data[off:off + rng.randint(1, 4)]
+                else:
+                    data[off:off] = rng.choice(TOKENS)
+            case = raw(bytes(data), sb, ccuts=rand_cuts(rng, len(data))) if side == "c" else raw(cb, bytes(data), scuts=rand_cuts(rng, len(data)))
+            case["ctail"], case["stail"] = rng.choice([0, 1, 2]), rng.choice([0, 1, 2])
+            add(case, ("corruption", meta, None))
+    for _ in range(400 if quick else 20000):
+        c, s = random_stream(rng, rng.randint(1, 25)), random_stream(rng, rng.randint(1, 25))
+        add(raw(c, s, ccuts=rand_cuts(rng, len(c)), scuts=rand_cuts(rng, len(s)), ctail=rng.choice([0, 1, 2]), stail=rng.choice([0, 1, 2]),
+                first=rng.choice(["c", "s"])), ("random", None, None))
+    res = run_cases(ctx, cases, batch=60)
+    nviol = 0
+    partial_extra = 0
+    for case, (kind, meta, extra) in zip(cases, info):
+        r = res[case["id"]]
+        ctx.count_case(("http-c01", case["c"], case["s"], case.get("ctail"), case.get("stail")), kind != "full", "http-" + kind)
+        bad = _bad_outcome(r)
+        why = None
+        if bad:
+            why = bad
+        elif kind == "prefix":
+            side, k, full_id, ends = extra
+            full = [strip_item(i) for i in res[full_id]["items"]]
+            obs = [strip_item(i) for i in r["items"]]
+            rest = list(obs)
+            for f in full:
+                if f in rest:
+                    rest.remove(f)
+            if len(rest) > 1:
+                why = "cut at %s:%d emits %d items that the complete conversation does not have" % (side, k, len(rest))
+            partial_extra += len(rest)
+            # at a message boundary of an HTTP/1 conversation: exactly the complete exchanges
+            if why is None and meta["kind"] == "h1" and k in ends:
+                j = ends.index(k) + 1
+                want = min(j, len(full))
+                got = len([o for o in obs if o in full])
+                if got != want:
+                    why = "cut at message boundary %s:%d: %d complete exchanges reported, expected %d" % (side, k, got, want)
+        if why and not ctx.is_known("http-c01:" + why.split(":")[0]) and nviol < 3:
+            nviol += 1
+            ctx.violation({"kind": "http-c01", "input_kind": kind, "case": case, "failure": why,
+                           "how": "vh-http run (case on stdin)"})
+    ctx.cov.setdefault("http_c01", {})["items_for_the_cut_message"] = partial_extra
+    ctx.sample({"kind": "http-c01", "cases": len(cases), "prefix": sum(1 for i in info if i[0] == "prefix"),
+                "corruption": sum(1 for i in info if i[0] == "corruption"), "random": sum(1 for i in info if i[0] == "random")})
+    return nviol
+
+
+def c08(ctx):
+    """HTTP share of C08: same bytes, different segmentations: identical items and outcome."""
+    rng = ctx.rng
+    quick = ctx.tier == "quick"
+    convs = sample_conversations(rng, 4, 4)
+    for i, (c, m) in enumerate(convs):
+        c["id"] = i
+    encs = encode_cases(ctx, [c for c, _ in convs])
+    streams = [(unb64(e["c"]), unb64(e["s"])) for e in encs]
+    # corruptions of some of them
+    for cb, sb in list(streams[:4]):
+        d = bytearray(cb)
+        if d:
+            d[rng.randrange(len(d))] = rng.choice([0, 0x0a, 0xff, 0x3a])
+        e = bytearray(sb)
+        if e:
+            e[rng.randrange(len(e))] = rng.choice([0, 0x0a, 0xff, 0x3a])
+        streams.append((bytes(d), sb))
+        streams.append((cb, bytes(e)))
+    cases, ref = [], {}
+    for si, (cb, sb) in enumerate(streams):
+        def add(**kw):
+            c = raw(cb, sb, **kw)
+            c["id"] = len(cases)
+            c["_stream"] = si
+            cases.append(c)
+            return c["id"]
+        ref[si] = add()
+        for side, data in (("ccuts", cb), ("scuts", sb)):
+            n = len(data)
+            pts = set(range(1, n)) if n <= (500 if quick else 10 ** 9) else set(rng.sample(range(1, n), 160))
+            pts |= {p for p in (1, 2, 8, 9, 23, 24, 25, 4095, 4096, 4097, 8191, 8192, 8193, n - 1) if 0 < p < n}
+            for p in sorted(pts):
+                add(**{side: [p]})
+        for _ in range(25 if quick else 400):
+            add(ccuts=rand_cuts(rng, len(cb), rng.randint(2, 40)), scuts=rand_cuts(rng, len(sb), rng.randint(2, 40)))
+        add(ccuts=[-1], scuts=[-1])
+    res = run_cases(ctx, [{k: v for k, v in c.items() if k != "_stream"} for c in cases], batch=80)
+    nviol = 0
+    for c in cases:
+        r = res[c["id"]]
+        si = c["_stream"]
+        ctx.count_case(("http-c08", si, tuple(c.get("ccuts", [])), tuple(c.get("scuts", []))), c["id"] != ref[si], "http-split")
+        if result_key(r) != result_key(res[ref[si]]) and nviol < 3:
+            nviol += 1
+            ctx.violation({"kind": "http-c08", "case": {k: v for k, v in c.items() if k != "_stream"},
+                           "reference": {k: v for k, v in cases[ref[si]].items() if k != "_stream"},
+                           "observed": result_key(r)[:2000], "expected": result_key(res[ref[si]])[:2000],
+                           "how": "vh-http run: same bytes, the two segmentations give different results"})
+    ctx.sample({"kind": "http-c08", "streams": len(streams), "segmentations": len(cases)})
+    return nviol
+
+
+def boundary_values(rem, cap):
+    vals = [0, 1, rem - 1, rem, rem + 1, 65535, 65536, cap, cap + 1, 2 ** 31 - 1, -1, 2 ** 32 - 1]
+    return vals
+
+
+def c02(ctx):
+    """HTTP share of C02: every length field x boundary values x three tails, in a child process
+    under an address-space limit; alloc <= 64 n + 96 MiB, cpu <= 2 us n + 0.5 s; terminates."""
+    rng = ctx.rng
+    quick = ctx.tier == "quick"
+    convs = sample_conversations(rng, 2, 2, sizes=[0, 3, 100, 1000, 5000])
+    if not quick:
+        convs += sample_conversations(rng, 6, 6)
+    for i, (c, m) in enumerate(convs):
+        c["id"] = i
+    encs = encode_cases(ctx, [c for c, _ in convs])
+    cases = []
+    for enc in encs:
+        cb, sb = unb64(enc["c"]), unb64(enc["s"])
+        for tail in (0, 1, 2):
+            c = raw(cb, sb, ctail=tail, stail=tail)
+            c["_what"] = ("unchanged", tail)
+            cases.append(c)
+        fields = enc["fields"]
+        if quick and len(fields) > 14:
+            fields = rng.sample(fields, 14)
+        for f in fields:
+            data = cb if f["side"] == "c" else sb
+            cap = (1 << 24) - 1 if f["kind"] == "h2len" else CAP
+            for v in boundary_values(f["rem"], cap):
+                if f["kind"] == "h2len":
+                    rep = (v % (1 << 24)).to_bytes(3, "big")
+                elif f["kind"] == "chunk":
+                    rep = (b"-1" if v < 0 else b"%x" % v)
+                else:
+                    rep = b"%d" % v
+                nd = data[:f["off"]] + rep + data[f["off"] + f["len"]:]
+                for tail in (0, 1, 2):
+                    c = raw(nd, sb, ctail=tail, stail=tail) if f["side"] == "c" else raw(cb, nd, ctail=tail, stail=tail)
+                    c["_what"] = (f["kind"], f["side"], f["off"], v, tail)
+                    cases.append(c)
+    for i, c in enumerate(cases):
+        c["id"] = i
+    res = run_cases(ctx, [{k: v for k, v in c.items() if k != "_what"} for c in cases], mode="cost", batch=60,
+                    limit_kb=6 * 1024 * 1024, timeout=600)
+    nviol = 0
+    worst = {"alloc_over_n": 0, "cpu_ms": 0}
+    for c in cases:
+        r = res[c["id"]]
+        ctx.count_case(("http-c02", c["c"], c["s"], c["ctail"]), c["_what"][0] != "unchanged", "http-" + c["_what"][0])
+        why = None
+        if r.get("died"):
+            why = "child process died (rc %s): %s" % (r.get("rc"), (r.get("stderr") or "")[-200:])
+        elif r.get("skipped"):
+            continue
+        elif r.get("error"):
+            why = "harness: " + r["error"]
+        else:
+            n = r["n"]
+            worst["alloc_over_n"] = max(worst["alloc_over_n"], r["alloc"])
+            worst["cpu_ms"] = max(worst["cpu_ms"], r["cpu_ns"] / 1e6)
+            if r["c"]["outcome"] in ("hang", "panic") or r["s"]["outcome"] in ("hang", "panic") or r.get("timeout"):
+                why = "outcome %s / %s" % (r["c"]["outcome"], r["s"]["outcome"])
+            elif r["alloc"] > 64 * n + 96 * (1 << 20):
+                why = "allocated %d bytes for %d input bytes" % (r["alloc"], n)
+            elif r["cpu_ns"] > 2000 * n + 500000000:
+                why = "cpu %.1f ms for %d input bytes" % (r["cpu_ns"] / 1e6, n)
+        if why and nviol < 3:
+            nviol += 1
+            ctx.violation({"kind": "http-c02", "field": c["_what"], "case": {k: v for k, v in c.items() if k != "_what"},
+                           "failure": why, "how": "vh-http cost (case on stdin) in a child process with RLIMIT_AS 6 GiB"})
+    ctx.cov.setdefault("http_c02", {}).update({"max_alloc_bytes": worst["alloc_over_n"], "max_cpu_ms": round(worst["cpu_ms"], 2)})
+    ctx.sample({"kind": "http-c02", "cases": len(cases), "max_alloc_bytes": worst["alloc_over_n"], "max_cpu_ms": round(worst["cpu_ms"], 2)})
+    return nviol
+
+
+def classify_stage(it):
+    """Class of an item that does not survive the later stages (computed from the item)."""
+    st = it.get("stage") or ""
+    return "http-stage:" + st.split(":")[0] + (":" + st.split(":")[1] if st.startswith("panic") and ":" in st else "")
+
+
+def c11(ctx):
+    """HTTP share of C11: every item emitted for well-formed and corrupted streams goes through
+    json round trip -> Analyze -> Summarize / Represent; the representation is well-formed."""
+    rng = ctx.rng
+    quick = ctx.tier == "quick"
+    cases = []
+    for i in range(120 if quick else 2000):
+        k = rng.choice([1, 2, 3])
+        ex = [gen_exchange(rng, j + 1, last=(j == k - 1)) for j in range(k)]
+        for e in ex:                      # field variants the later stages read
+            r = rng.random()
+            if r < 0.1:
+                e["reqHeaders"].append(["Content-Type", "multipart/form-data; boundary=xyz"])
+                e.update({"method": "POST", "reqFraming": "cl",
+                          "reqBody": b64(b"--xyz\r\nContent-Disposition: form-data; name=\"f\"; filename=\"a.txt\"\r\nContent-Type: text/plain\r\n\r\nhello\r\n--xyz--\r\n")})
+            elif r < 0.2:
+                e["reqHeaders"] = [h for h in e["reqHeaders"] if h[0].lower() != "content-type"] + [["Content-Type", "application/json"]]
+                e.update({"method": "POST", "reqFraming": "cl", "reqBody": b64(b'{"query":"{ a { b } }","variables":null}')})
+            elif r < 0.25:
+                e["respHeaders"].append(["Content-Encoding", "gzip"])
+        cases.append({"kind": "h1", "h1": ex, "bodylimit": 1})
+    for i in range(60 if quick else 1000):
+        streams = [gen_stream(rng, j, body_sizes=[0, 3, 100, 3000]) for j in range(rng.choice([1, 2, 3]))]
+        for st in streams:
+            r = rng.random()
+            if r < 0.1:
+                st["req"] = [f for f in st["req"] if f[0] != "content-type"] + [("content-type", "application/x-www-form-urlencoded")]
+            elif r < 0.15:
+                st["req"] = [f for f in st["req"] if f[0] != "content-type"] + [("content-type", "multipart/form-data; boundary=x")]
+            elif r < 0.2:
+                st["resp"] = list(st["resp"]) + [("content-encoding", "gzip")]
+        c = build_h2_case(rng, streams)
+        c["bodylimit"] = 1
+        cases.append(c)
+    for i, c in enumerate(cases):
+        c["id"] = i
+    encs = encode_cases(ctx, cases)
+    for enc in list(encs)[: (60 if quick else 600)]:
+        cb, sb = bytearray(unb64(enc["c"])), bytearray(unb64(enc["s"]))
+        for d in (cb, sb):
+            for _ in range(rng.choice([0, 1, 2])):
+                if d:
+                    d[rng.randrange(len(d))] = rng.choice([0, 0xff, 0x0a, 0x3a, 0x25, rng.getrandbits(8)])
+        c = raw(bytes(cb), bytes(sb))
+        c["id"] = len(cases)
+        cases.append(c)
+    res = run_cases(ctx, cases, batch=40)
+    nviol, nitems = 0, 0
+    classes = {}
+    for c in cases:
+        r = res[c["id"]]
+        items = r.get("items", [])
+        ctx.count_case(("http-c11", json.dumps(c, sort_keys=True)), bool(items), "http-" + c["kind"])
+        for it in items:
+            nitems += 1
+            why = None
+            if it.get("stage") != "ok":
+                why = classify_stage(it)
+            elif it.get("stage_ns", 0) > 20_000_000 + 2000 * it.get("size", 0):
+                why = "http-stage:slow"
+            if why:
+                classes[why] = classes.get(why, 0) + 1
+                if not ctx.is_known(why) and nviol < 3:
+                    nviol += 1
+                    ctx.violation({"kind": "http-c11", "class": why, "case": c, "stage": it.get("stage"),
+                                   "how": "vh-http run: item -> json -> Analyze -> json -> Summarize / Represent"})
+    ctx.cov.setdefault("http_c11", {}).update({"items": nitems, "classes": classes})
+    ctx.sample({"kind": "http-c11", "cases": len(cases), "items": nitems, "not_ok": classes})
+    return nviol
